@@ -1,14 +1,16 @@
 #!/bin/bash
 # usage: tools_seeded.sh [<seeded-dir-name> ...]   -- for every seeded change: apply seeded/<name>/patch.diff to /repo, run the quick
-# check of the property it breaks (meta.json "property"), undo, rebuild.  Prints CAUGHT / MISSED per change.
+# check(s) of the property it breaks (meta.json "checks", default "property"), undo, rebuild.  Prints CAUGHT / MISSED per change.
 cd /verif
 names="$@"; [ -z "$names" ] && names=$(ls seeded | grep -v README)
 for n in $names; do
   d=seeded/$n; [ -f $d/patch.diff ] || continue
-  prop=$(/venv/bin/python -c "import json;print(json.load(open('$d/meta.json'))['property'])")
+  props=$(/venv/bin/python -c "import json;m=json.load(open('$d/meta.json'));print(' '.join(m.get('checks') or [m['property']]))")
   if ! git -C /repo apply --check $PWD/$d/patch.diff 2>/dev/null; then echo "$n: patch does not apply to the current tree"; continue; fi
   git -C /repo apply $PWD/$d/patch.diff
-  out=$(./check $prop --tier quick --no-evidence 2>&1 | grep -v "^KNOWN-FINDING")
-  if echo "$out" | grep -q "^VIOLATION property=$prop"; then echo "$n: CAUGHT by $prop: $(echo "$out" | grep -B1 '^VIOLATION' | head -1 | cut -c1-160)"; else echo "$n: MISSED by $prop ($(echo "$out" | head -1 | cut -c1-100))"; fi
+  for prop in $props; do
+    out=$(./check $prop --tier quick --no-evidence 2>&1 | grep -v "^KNOWN-FINDING")
+    if echo "$out" | grep -q "^VIOLATION property=$prop"; then echo "$n: CAUGHT by $prop: $(echo "$out" | grep -B1 '^VIOLATION' | head -1 | cut -c1-160)"; else echo "$n: MISSED by $prop ($(echo "$out" | head -1 | cut -c1-100))"; fi
+  done
   git -C /repo checkout -- . ; /venv/bin/python vlib/build.py /repo >/dev/null 2>&1
 done
